@@ -10,6 +10,7 @@ package main
 // printed on stderr and turned into violations by ./check.
 
 import (
+	"os"
 	"bytes"
 	"encoding/json"
 	"fmt"
@@ -207,7 +208,112 @@ func scenAPI(rep *Report, tier string, seed int64) {
 		rep.Violate("api:height-published-before-commit", fmt.Sprintf("%d of the get-sync-status answers named a height that was not committed yet, e.g. %s", early, ex), "")
 	}
 	rep.Sample(map[string]interface{}{"chain_length": length, "api_calls": calls, "early_height_answers": early})
+	apiLockedCommits(rep, s, chain, refDump, seed)
 	rep.Rule = "one evaluation = one API request served by the real srv handlers over HTTP (6 client goroutines cycling through the read methods) while the real DBlockSync applies the chain block by block, plus one per block; final ledger compared with the load-free lock-step run; distinct is not meaningful for a schedule exploration and is reported as the number of scenario phases"
+}
+
+// apiLockedCommits: the default storage configuration is SQLite's rollback journal, in which a
+// reader's SHARED lock blocks COMMIT. A slow API read (a rich list over a large table, a slow
+// client) can therefore outlast the busy timeout and make the COMMIT of a block fail with
+// "database is locked". That must neither crash the daemon nor change the ledger: the block is
+// retried. Here the busy timeout of the daemon's pool is 40 ms (an operator sets it with db.mode)
+// and a reader on the same pool keeps a cursor open for 120 ms out of every 200.
+func apiLockedCommits(rep *Report, s Setup, chain []*BlockSpec, refDump []string, seed int64) {
+	s.Apply()
+	fake := NewFakeFactom()
+	for _, b := range chain {
+		fake.Install(&BlockSpec{Height: b.Height, Time: b.Time, OPR: b.OPR, SPR: b.SPR, TX: b.TX, FCT: b.FCT})
+	}
+	dir := tempDir("verif-api-locked-")
+	defer os.RemoveAll(dir)
+	DaemonDSNExtra = "&_busy_timeout=40"
+	d, err := OpenDaemon(dir, fake)
+	DaemonDSNExtra = ""
+	if err != nil {
+		rep.Note("infrastructure: %v", err)
+		return
+	}
+	if d.JournalMode == "wal" {
+		rep.Note("locked-commit phase skipped: the daemon's default journal mode is WAL")
+		d.Stop()
+		return
+	}
+	fake.SetTip(0)
+	d.Start()
+	quit := make(chan struct{})
+	var wg sync.WaitGroup
+	var held int64
+	wg.Add(1)
+	go func() {
+		defer wg.Done()
+		for {
+			select {
+			case <-quit:
+				return
+			default:
+			}
+			rows, err := d.N.Pegnet.DB.Query("SELECT * FROM pn_addresses")
+			if err == nil {
+				if rows.Next() {
+					atomic.AddInt64(&held, 1)
+					time.Sleep(120 * time.Millisecond)
+				}
+				rows.Close()
+			}
+			time.Sleep(80 * time.Millisecond)
+		}
+	}()
+	tip := uint32(len(chain))
+	if tip > 30 {
+		tip = 30
+	}
+	theHook.Clear()
+	commitFailures := 0
+	stuck := ""
+	for h := uint32(1); h <= tip && stuck == ""; h++ {
+		fake.SetTip(h)
+		deadline := time.Now().Add(20 * time.Second)
+		for CommittedSynced(d.DBPath) < int64(h) {
+			if p := d.Panicked(); p != "" {
+				stuck = fmt.Sprintf("height %d with a reader holding the database: panic: %s", h, p)
+				break
+			}
+			if time.Now().After(deadline) {
+				stuck = fmt.Sprintf("height %d with a reader holding the database: not synced after 20 s: %s", h, theHook.Last())
+				break
+			}
+			time.Sleep(2 * time.Millisecond)
+		}
+		commitFailures += theHook.Count("unable to commit")
+		theHook.Clear()
+		rep.Traces++
+	}
+	close(quit)
+	wg.Wait()
+	d.Stop()
+	rep.Distribution["locked:reader-cursors-held"] = int(held)
+	rep.Distribution["locked:commit-failures-seen"] = commitFailures
+	rep.Case(fmt.Sprintf("locked-commits|failures>0=%v", commitFailures > 0), true)
+	rep.Evaluations += int(tip)
+	if stuck != "" {
+		rep.Violate("api:commit-blocked-by-reader", stuck, "")
+		return
+	}
+	// the reference ledger at height tip: replay the chain prefix without load
+	ref, _, ok := replayWithRestartsX(rep, s, chain[:tip], map[uint32]bool{})
+	if !ok {
+		return
+	}
+	dump, err := DumpDB(d.DBPath)
+	if err != nil {
+		rep.Note("infrastructure: %v", err)
+		return
+	}
+	if diff := FirstDiff(dropBackfill(dump), dropBackfill(ref)); diff != "" {
+		path := WriteReplay(rep.Property, "api-locked", Replay{Property: rep.Property, Scenario: "api", Seed: seed, Setup: s,
+			What: "the ledger synced while a reader kept blocking COMMIT differs from the ledger synced without it", Detail: []string{diff}, Blocks: ChainJSON(chain[:tip])})
+		rep.Violate("api:ledger-differs:locked-commit", diff, path)
+	}
 }
 
 func init() { scenarios["api"] = scenAPI }
